@@ -12,6 +12,21 @@ pub mod vars_secondary;
 pub mod vars_timestamp;
 use crate::version::zerv::bump::precedence::Precedence;
 
+/// Add a bump increment to a component value, failing instead of overflowing.
+pub(crate) fn checked_bump(
+    current: u64,
+    increment: u32,
+    component: &str,
+) -> Result<u64, ZervError> {
+    match current.checked_add(increment as u64) {
+        Some(value) => Ok(value),
+        None => Err(ZervError::InvalidArgument(format!(
+            "Bumping {component} by {increment} overflows the maximum value {}",
+            u64::MAX
+        ))),
+    }
+}
+
 impl Zerv {
     pub fn apply_component_processing(&mut self, args: &ResolvedArgs) -> Result<(), ZervError> {
         let precedence_order: Vec<Precedence> =
